@@ -2,7 +2,7 @@ from . import term_common
 
 SPEC = {
     "props_file": "C01.v",
-    "targets": ["theories/Props/C01.vo", "theories/Term/Check.vo"],
+    "targets": ["theories/Props/C01.vo", "theories/Term/Check.vo", "theories/Term/Cover.vo"],
     "fail_text": "status Solved but the returned (x,s,z), re-evaluated exactly against the original data, fail the documented termination test by more than the rounding slack",
     "direct_keys": ["lengths_ok"],
     "rule": "one evaluation = one solver run ending Solved, re-evaluated in exact dyadic arithmetic by the proved-sound checker chk_termtest against the user's original P,q,A,b,cones; non-trivial = problem with at least 2 variables or constraints; distinct = distinct problem JSON (data + settings)",
